@@ -7,3 +7,4 @@ import DiffxVerif.Properties.C13
 #print axioms Diffx.C13.C13_top
 #print axioms Diffx.C13.C13_only_meta
 #print axioms Diffx.C13.C13_idem
+#print axioms Diffx.C13.C13_multibyte_witness
